@@ -395,6 +395,15 @@ MULTI_WS.append((GLOB_RENAMED_WITNESS, {'a/src/lib.rs': '#[typeshare]\n#[serde(r
 MULTI_WS.append(('plain import under a Kotlin prefix', {'a/src/lib.rs': '#[typeshare]\npub struct A1 { pub x: u8 }\n',
                                                         'b/src/lib.rs': 'use a::A1;\n#[typeshare]\npub struct B1 { pub f: A1 }\n'},
                  {'b': ['A1']}))
+# the witness of the OPEN finding C09-multi-emitted-generic (class Spec.C09MultiLangSpec.c9m_lknown, Props C09_multi_emitted_generic_refuted):
+# the reference `f: A2` is rewritten to the emitted name X2 of a's type, which is also the name of a generic parameter of the owner; the
+# Kotlin / Swift printers decide "generic parameter or prefixed name" on the rewritten name (format_simple_type) and print it without
+# the prefix: my_crate.kt says `val f: X2`, a.kt declares and my_crate.kt imports KPX2.  Expected spellings: `$X2` = the generic
+# parameter X2, verbatim in every language; `X2` = the type of crate a, prefix + X2
+EMITTED_GENERIC_WITNESS = 'emitted name of an imported type is a generic parameter of the owner (witness of C09-multi-emitted-generic)'
+MULTI_WS.append((EMITTED_GENERIC_WITNESS, {'a/src/lib.rs': '#[typeshare]\n#[serde(rename = "X2")]\npub struct A2 { pub x: u8 }\n',
+                                           'my_crate/src/lib.rs': 'use a::A2;\n#[typeshare]\npub struct G<X2> { pub f: A2, pub g: X2 }\n'},
+                 {'my_crate': ['$X2', 'X2']}))
 _re = __import__('re')
 TS_IMPORT = _re.compile(r'^import \{([^}]*)\} from "\./([^"]+)";', _re.M)
 KT_IMPORT = _re.compile(r'^import p\.([^.\n]+)\.(\S+)$', _re.M)
@@ -429,6 +438,42 @@ def ws_class_request(root, files, asts):
     return f'(c09_ws_class typescript {Lst(entries, lambda e: f"({Lst(e[0], S)} {e[1]} {e[2]})")})'
 
 
+def ws_lclass_request(root, files, asts, lang, pfx):
+    """(c09_ws_lclass LANG PREFIX ..): the extracted Spec.C09MultiLangSpec.c9m_lknown_ws / _file / _crate for the language and the
+    prefix of the run (ocaml/drv_c09multi.ml); None if a file has no AST"""
+    r = ws_class_request(root, files, asts)
+    return r and r.replace('(c09_ws_class typescript ', f'(c09_ws_lclass {lang} {S(pfx)} ', 1)
+
+
+def lclass_answer(x):
+    a = {k[0]: k[1] for k in x}
+    cls = lambda v: None if v == 'none' else v[1]
+    return {'status': a['status'] if isinstance(a['status'], str) else a['status'][0], 'class': cls(a['class']), 'base': cls(a['base']),
+            'ids_wf': a['ids_wf'] == 'true', 'files': [(unS(f[0]), cls(f[1]), cls(f[2])) for f in a['files']]}
+
+
+def file_classes(lc, crate):
+    """the extracted classes of the source files of one crate (c9m_lknown_file) for the language and prefix of the run"""
+    return {fc for c, fc, _ in lc['files'] if c == crate and fc} if lc and lc['status'] == 'ok' else set()
+
+
+KT_OWNER_GENERICS = _re.compile(r'^(?:data class|sealed class|typealias|value class|enum class) (\w+)<([^>]*)>', _re.M)
+TS_OWNER_GENERICS = _re.compile(r'^export (?:interface|type) (\w+)<([^>]*)>', _re.M)
+
+
+def owner_generics(lang, text):
+    """declared name -> the generic parameters its declaration lists"""
+    rx = TS_OWNER_GENERICS if lang == 'typescript' else KT_OWNER_GENERICS
+    return {o: [g.split(':')[0].strip() for g in gs.split(',') if g.strip()] for o, gs in rx.findall(text or '')}
+
+
+def spelled(lang, text):
+    """the references of a generated file the expectation lists speak about: every name in a type position of a field, payload, alias
+    or const, but single-letter generic parameters, the sealed parent and the <Enum><Variant>Inner helpers the file itself declares"""
+    defs, refs, _ = observe_text(lang, text)
+    return [(o, pos, n) for o, pos, n in refs if len(n) > 1 and pos != 'parent' and not (pos == 'payload' and n.endswith('Inner') and n in defs)]
+
+
 def resolve_files(lang, ext, pfx, outs, expect):
     """closed-world name resolution over the files of one run: failures as dicts (kind import | ref | spell, file, name, text)"""
     import re
@@ -451,24 +496,33 @@ def resolve_files(lang, ext, pfx, outs, expect):
         for owner, pos, n in observe_text(lang, t)[1]:
             if n not in defs[m] and n not in imported and n not in generics:
                 fails.append({'kind': 'ref', 'file': m, 'name': n, 'text': f'{m}.{ext}: {owner} ({pos}) refers to {n}, which is neither defined in the file nor imported'})
-    if lang == 'typescript':
-        for m, want in expect.items():
-            got = sorted(n for _, _, n in observe_text(lang, outs.get(m, ''))[1] if len(n) > 1)      # generic parameters are single letters here
-            if got != want:
-                fails.append({'kind': 'spell', 'file': m, 'got': got, 'want': want,
-                              'text': f'{m}.{ext} spells its references {got}; the definitions they denote are emitted as {want}'})
+    for m, want in expect.items():
+        # generic parameters are single letters in the workspaces (not listed) - but `$G`: a longer generic parameter G, verbatim;
+        # every other name is a generated type and carries the prefix of the run
+        want = sorted(n[1:] if n.startswith('$') else pfx + n for n in want)
+        refs = spelled(lang, outs.get(m, ''))
+        got = sorted(n for _, _, n in refs)
+        if got != want:
+            fails.append({'kind': 'spell', 'file': m, 'got': got, 'want': want, 'refs': refs, 'generics': owner_generics(lang, outs.get(m, '')),
+                          'text': f'{m}.{ext} spells its references {got}; the definitions they denote are emitted as {want}'})
     return fails, defs, imported_by
 
 
-def classify_multi_failure(f, pfx, facts, defs, imported_by, ws_class):
-    """the recorded class that explains ONE failure of a folder-output run, or None.
-    C09-multi-glob-renamed (only when the extracted class of the workspace says so): the unresolved / mis-spelled name is the Rust
-    name of a type that a crate glob-imported by this file's crate serde-renames, the crate has no type of its own under that name,
-    and the generated name IS imported from that crate - exactly the failure of the witness.
+def classify_multi_failure(f, pfx, facts, defs, imported_by, lc):
+    """the recorded class that explains ONE failure of a folder-output run, or None.  lc: the answer of c09_ws_lclass for the language
+    and the prefix of the run (the extracted Spec.C09MultiLangSpec.c9m_lknown_file of every source file).
+    C09-multi-glob-renamed (only when a source file of the failing file's crate is in that class): the unresolved / mis-spelled name
+    is the Rust name of a type that a crate glob-imported by this file's crate serde-renames, the crate has no type of its own under
+    that name, and the generated name IS imported from that crate - exactly the failure of the witness.
+    C09-multi-emitted-generic (only when a source file of the crate is in that class for this language and prefix - never without a
+    prefix): the file spells k references as a bare name g where prefix + g was due, g is a generic parameter of the declaration each
+    of them stands in, and prefix + g is a type the file imports or declares - exactly the failure of the witness.
     C09-kotlin-alias: Kotlin declares a plain typealias under prefix + Rust name; an import of a serde-renamed alias names
     prefix + generated name."""
+    import collections
     ren, globs, own = facts
     b = f['file']
+    classes = file_classes(lc, b)
 
     def glob_renamed(n):
         n0 = n[len(pfx):] if pfx and n.startswith(pfx) else n
@@ -479,12 +533,29 @@ def classify_multi_failure(f, pfx, facts, defs, imported_by, ws_class):
             if r and imported_by.get(b, {}).get(pfx + r[0]) == d:
                 return pfx + r[0]
         return None
+
+    def emitted_generic():
+        if not pfx or f['kind'] != 'spell':
+            return False
+        got, want = collections.Counter(f['got']), collections.Counter(f['want'])
+        bare, due = got - want, want - got          # spelled but not due / due but not spelled
+        if not bare or {pfx + g: k for g, k in bare.items()} != dict(due):
+            return False
+        for g, k in bare.items():
+            if pfx + g not in imported_by.get(b, {}) and pfx + g not in defs.get(b, set()):
+                return False                        # prefix + g is no type this file can name
+            cand = [r for r in f['refs'] if r[2] == g and g in f['generics'].get(r[0], [])]
+            if len(cand) < k:
+                return False                        # a bare g outside a declaration with the generic parameter g
+        return True
     if f['kind'] == 'import':
         for n0, (r, kind) in ren.get(f['from'], {}).items():
             if kind == 'type' and f['name'] == pfx + r and pfx + n0 in defs.get(f['from'], set()):
                 return 'C09-kotlin-alias'
         return None
-    if ws_class != 'C09-multi-glob-renamed':
+    if 'C09-multi-emitted-generic' in classes and emitted_generic():
+        return 'C09-multi-emitted-generic'
+    if 'C09-multi-glob-renamed' not in classes:
         return None
     if f['kind'] == 'ref':
         return 'C09-multi-glob-renamed' if glob_renamed(f['name']) else None
@@ -496,16 +567,21 @@ def classify_multi_failure(f, pfx, facts, defs, imported_by, ws_class):
 
 def phase_multi(chk):
     """--output-folder, TypeScript and Kotlin under the prefix KP: in every generated file each referenced user type is defined in
-    that file or imported into it, and every imported name is defined in the file it is imported from (closed-world name resolution:
+    that file or imported into it, every imported name is defined in the file it is imported from (closed-world name resolution:
     C09's statement for a run that writes several files; Kotlin names carry the prefix everywhere, import lines included - fix 26 of
-    /repo).  Workspaces are hand-written and outside the recorded C14 classes (named or glob-covered references - to serde-renamed
-    types of other crates too, since the /repo fix of C14-renamed-import -, unique generated names).  Every workspace is also judged
-    by the EXTRACTED class predicate Spec.C09MultiSpec.c9m_known_ws (driver command c09_ws_class): a failure is a recorded finding
-    only if the workspace is IN the class and the failure is exactly the class's (classify_multi_failure); any other failure, and
-    any failure of a workspace outside the class, is a violation."""
+    /repo), and the references are spelled as the workspace's expectation says (prefix + generated name of the denoted type; a generic
+    parameter verbatim).  Workspaces are hand-written and outside the recorded C14 classes (named or glob-covered references - to
+    serde-renamed types of other crates too, since the /repo fix of C14-renamed-import -, unique generated names).  Every workspace
+    is judged, for the language AND the prefix of the run, by the EXTRACTED class predicates Spec.C09MultiLangSpec.c9m_lknown_ws /
+    c9m_lknown_file (driver command c09_ws_lclass; they contain the language-independent classes of Spec.C09MultiSpec.c9m_known_ws): a
+    failure is a recorded finding only if a source file of the failing file's crate is IN the class and the failure is exactly the
+    class's (classify_multi_failure); any other failure, and any failure of a workspace outside the class, is a violation.  The
+    Kotlin observation of every generated file must also satisfy the extracted judgement good_C09_multi (theorem C09_multi_Kotlin;
+    driver command c09_ws_good), which accepts a reference only at a position kind of a source mention and, outside the classes, only
+    under the demanded spelling."""
     srcs = sorted({t for _, files, _ in MULTI_WS for t in files.values()})
     asts = dict(zip(srcs, vf.impl([{'cmd': 'ast', 'src': x} for x in srcs])))
-    roots, reqs = [], []
+    roots, reqs, lreqs = [], [], []
     for name, files, expect in MULTI_WS:
         d = vf.tmpdir('verif-c09-')
         for rel, txt in files.items():
@@ -514,7 +590,8 @@ def phase_multi(chk):
             q.write_text(txt)
         roots.append(d)
         reqs.append(ws_class_request(d / 'ws', files, asts))
-    answers = iter(vf.model([r for r in reqs if r is not None]))
+        lreqs.append([ws_lclass_request(d / 'ws', files, asts, lang, pfx) for lang, _, pfx, _ in MULTI_LANGS])
+    answers = iter(vf.model([r for r in reqs if r is not None] + [r for rs in lreqs for r in rs if r is not None]))
     classes = []
     for r in reqs:
         if r is None:
@@ -523,47 +600,84 @@ def phase_multi(chk):
         a = {k[0]: k[1] for k in next(answers)}
         classes.append({'status': a['status'] if isinstance(a['status'], str) else a['status'][0],
                         'class': None if a['class'] == 'none' else a['class'][1], 'ids_wf': a['ids_wf'] == 'true'})
-    reproduced = set()
-    for (name, files, expect), d, gc in zip(MULTI_WS, roots, classes):
+    lclasses = [[lclass_answer(next(answers)) if r is not None else None for r in rs] for rs in lreqs]
+    good_reqs = []            # (workspace, language, crate, payload, request of c09_ws_good)
+    for (name, files, expect), d, gc, lcs, lrs in zip(MULTI_WS, roots, classes, lclasses, lreqs):
         ws_class = gc['class'] if gc and gc['status'] == 'ok' else None
         chk.count('multi_ws_class_' + str(ws_class))
         facts = ws_facts(files)
         if gc is None or gc['status'] != 'ok' or not gc['ids_wf']:
             chk.violation(f'multi-{name}', {'phase': 'multi', 'workspace': name, 'files': files, 'class_answer': gc},
                           'the model cannot parse a hand-written workspace (or it is outside c9m_ids_wf): no class can be evaluated', no_input=True)
-        for lang, ext, pfx, extra in MULTI_LANGS:
+        for (lang, ext, pfx, extra), lc, lreq in zip(MULTI_LANGS, lcs, lrs):
             out = d / ('out_' + ext)
             out.mkdir()
             p = subprocess.run(['timeout', '30', str(vf.TYPESHARE), '--lang', lang, '--output-folder', str(out)] + extra + [str(d / 'ws')], capture_output=True, text=True)
             chk.evaluations += 1
             chk.count('multi_file_workspaces')
-            payload = {'phase': 'multi', 'workspace': name, 'files': files, 'lang': lang, 'prefix': pfx, 'extracted_class': ws_class}
+            lws_class = lc['class'] if lc and lc['status'] == 'ok' else None
+            chk.count(f'multi_ws_lclass_{lang}_{lws_class}')
+            payload = {'phase': 'multi', 'workspace': name, 'files': files, 'lang': lang, 'prefix': pfx, 'extracted_class': lws_class,
+                       'language_independent_class': ws_class, 'file_classes': lc and lc['files']}
+            if gc is not None and (lc is None or lc['status'] != 'ok' or lc['base'] != ws_class):
+                chk.violation(f'multi-{name}-{lang}', dict(payload, class_answer=lc), 'c09_ws_lclass gives no answer on a hand-written workspace, or a '
+                              'language-independent class other than c09_ws_class does', no_input=True)
             if p.returncode != 0:
                 chk.violation(f'multi-{name}-{lang}', dict(payload, rc=p.returncode, stderr=p.stderr[-400:]), 'the real binary fails on a plain multi-crate workspace')
                 continue
             outs = {f.stem: f.read_text() for f in sorted(out.glob('*.' + ext))}
             payload['outputs'] = outs
+            if lang == 'kotlin' and lreq is not None:
+                for m, t in outs.items():
+                    dd, rf, left = observe_text(lang, t)
+                    good_reqs.append((name, lang, m, dict(payload, crate=m, observation=(dd, rf), extract_leftover=left),
+                                      lreq.replace('(c09_ws_lclass ', '(c09_ws_good ', 1)[:-1] + f' {S(m)} {obs_sx(dd, rf)})'))
             fails, defs, imported_by = resolve_files(lang, ext, pfx, outs, expect)
             for f in fails:
-                f['class'] = classify_multi_failure(f, pfx, facts, defs, imported_by, ws_class)
+                f['class'] = classify_multi_failure(f, pfx, facts, defs, imported_by, lc)
+                f.pop('refs', None)
+            # a witness that shows no failure of its class (the finding did not reproduce): noted, as for the single-file witnesses
+            for wname, wcls, wlangs in ((GLOB_RENAMED_WITNESS, 'C09-multi-glob-renamed', ('typescript', 'kotlin')),
+                                        (EMITTED_GENERIC_WITNESS, 'C09-multi-emitted-generic', ('kotlin',))):
+                if name == wname and lang in wlangs and wcls not in {f['class'] for f in fails}:
+                    chk.notes.append(f'the witness of {wcls} shows no failure of that class in {lang}: the finding did not reproduce')
+                    chk.known_nohit.add(wcls)
             unexplained = [f['text'] for f in fails if f['class'] is None]
             if unexplained:
                 chk.violation(f'multi-{name}-{lang}', dict(payload, unresolved=[f['text'] for f in fails]),
                               f'{lang}{" with prefix " + pfx if pfx else ""}, folder output, workspace "{name}"'
-                              + (f' (in class {ws_class}, but this is not that failure)' if ws_class else '') + ': ' + '; '.join(unexplained[:3]))
+                              + (f' (in class {lws_class}, but this is not that failure)' if lws_class else '') + ': ' + '; '.join(unexplained[:3]))
                 continue
             for k in sorted({f['class'] for f in fails}):
-                reproduced.add(k)
                 if not chk.known(k, dict(payload, failures=[f['text'] for f in fails if f['class'] == k])):
                     chk.violation(f'multi-{name}-{lang}', dict(payload, unresolved=[f['text'] for f in fails]), f'{k} is not a recorded open finding: ' + '; '.join(f['text'] for f in fails if f['class'] == k)[:400])
             if not fails:
                 chk.nontrivial.add(('multi', name, lang))
-                if ws_class == 'C09-multi-glob-renamed' and name == GLOB_RENAMED_WITNESS:
-                    chk.notes.append(f'the witness of C09-multi-glob-renamed resolves every reference in {lang}: the finding did not reproduce')
-                    chk.known_nohit.add('C09-multi-glob-renamed')
-    if not any(c and c['class'] == 'C09-multi-glob-renamed' for c, (n, _, _) in zip(classes, MULTI_WS) if n == GLOB_RENAMED_WITNESS):
-        chk.violation('multi-witness-class', {'phase': 'multi', 'workspace': GLOB_RENAMED_WITNESS, 'class_answer': [c for c, (n, _, _) in zip(classes, MULTI_WS) if n == GLOB_RENAMED_WITNESS]},
-                      'the extracted c9m_known_ws does not put the witness of C09-multi-glob-renamed into its class', no_input=True)
+    # the extracted judgement of the Kotlin theorem on the observation of every file the real binary wrote
+    for (name, lang, m, payload, _), a in zip(good_reqs, vf.model([g[4] for g in good_reqs])):
+        a = {k[0]: k[1] for k in a}
+        chk.evaluations += 1
+        chk.count('multi_good_judged_files')
+        if a['status'] != 'ok':
+            chk.violation(f'multi-good-{name}-{m}', dict(payload, answer=str(a)), 'c09_ws_good gives no answer on a hand-written workspace', no_input=True)
+        elif a['good'] != 'true':
+            bad = [unS(x) for x in a['bad_defs']] + [ref_of(x) for x in a['bad_refs']]
+            if payload['extract_leftover']:
+                chk.unreadable(lang, payload, payload['extract_leftover'])
+                continue
+            chk.violation(f'multi-good-{name}-{m}', dict(payload, rejected=bad),
+                          f'{lang} with prefix {payload["prefix"]}, folder output, workspace "{name}": good_C09_multi rejects the file generated for crate {m}: '
+                          f'definitions / references {bad[:4]} are not what Spec.C09MultiLangSpec demands (theorem C09_multi_Kotlin)')
+    # the extracted predicates must put the two witnesses into their classes (and the emitted-generic one into none without a prefix)
+    for k, (name, _, _) in enumerate(MULTI_WS):
+        by_lang = {l[0]: (lc and lc['class']) for l, lc in zip(MULTI_LANGS, lclasses[k])}
+        if name == GLOB_RENAMED_WITNESS and not (classes[k] and classes[k]['class'] == 'C09-multi-glob-renamed' and set(by_lang.values()) == {'C09-multi-glob-renamed'}):
+            chk.violation('multi-witness-class', {'phase': 'multi', 'workspace': name, 'class_answer': classes[k], 'language_level': by_lang},
+                          'the extracted c9m_known_ws / c9m_lknown_ws do not put the witness of C09-multi-glob-renamed into its class', no_input=True)
+        if name == EMITTED_GENERIC_WITNESS and by_lang != {'typescript': None, 'kotlin': 'C09-multi-emitted-generic'}:
+            chk.violation('multi-witness-lclass', {'phase': 'multi', 'workspace': name, 'class_answer': classes[k], 'language_level': by_lang},
+                          'the extracted c9m_lknown_ws does not put the witness of C09-multi-emitted-generic into its class under the Kotlin prefix KP '
+                          'and into no class without a prefix (Props C09_multi_emitted_generic_refuted)', no_input=True)
 
 
 def run(chk):
@@ -578,7 +692,7 @@ def run(chk):
     chk.assumptions = ['syn is not modelled: the model receives the AST produced by harness/libdrive/src/ast.rs from the same text',
                        'what a name in a type position of the target language MEANS is fixed by Spec/C09Spec.v (c09_observe, builtin tables) and '
                        'lib/extract.py; no target-language compiler is installed',
-                       'single-file mode (p_imports = []) for the generated programs; folder output: eleven hand-written workspaces through the real binary (TypeScript; Kotlin under the prefix KP), every reference resolved in its file, failures judged by the extracted class Spec.C09MultiSpec.c9m_known_ws; import completeness in general is C14\'s subject',
+                       'single-file mode (p_imports = []) for the generated programs; folder output: twelve hand-written workspaces through the real binary (TypeScript; Kotlin under the prefix KP), every reference resolved in its file and spelled as expected, failures judged by the extracted language-level classes Spec.C09MultiLangSpec.c9m_lknown_ws / c9m_lknown_file for the language and prefix of the run (which contain those of Spec.C09MultiSpec.c9m_known_ws), every Kotlin file also by the extracted good_C09_multi; import completeness in general is C14\'s subject',
                        'C09_Go covers every alphanumeric uppercase_acronyms list on ASCII programs (all generated programs and lists are); '
                        'non-alphanumeric acronyms and non-ASCII names are outside the theorem and are not generated']
     chk.prepare(need_cli=True)
